@@ -371,6 +371,16 @@ def r20_6(ctx):
         elif isinstance(x, ast.For) and isinstance(x.target, ast.Tuple) and len(x.target.elts) == 2 and len(x.body) == 1 and isinstance(x.body[0], ast.Expr) and isinstance(x.body[0].value, ast.Call) and x.body[0].value.args:
             tgt_, elt_ = x.target, x.body[0].value.args[0]
         if tgt_ is None:
+            # iteration over the names:  f"{name} = {styles[name]}" for name in sorted(styles)   (styles = self.styles)
+            if isinstance(x, (ast.GeneratorExp, ast.ListComp)) and len(x.generators) == 1 and isinstance(x.generators[0].target, ast.Name):
+                nm_ = x.generators[0].target.id
+                pr_ = concat_parts(x.elt)
+                if len(pr_) == 3 and pr_[0] == ("expr", nm_) and pr_[1] == " = " and isinstance(pr_[2], tuple):
+                    v_ = pr_[2][1]
+                    sd_ = {k: norm(v) for k, v in _sdf(cfgp.node).items()}
+                    for d_ in ["self.styles"] + [k for k, v in sd_.items() if v == "self.styles"]:
+                        if v_ in (f"{d_}[{nm_}]", f"str({d_}[{nm_}])"):
+                            item_ok = True
             continue
         n_, s_ = (norm(e) for e in tgt_.elts)
         if concat_parts(elt_) in ([("expr", n_), " = ", ("expr", s_)], [("expr", n_), " = ", ("expr", f"str({s_})")]):
@@ -391,7 +401,7 @@ def r20_6(ctx):
         """'yes' / 'filtered' / 'unknown'"""
         if depth > 6:
             return "unknown"
-        if norm(e) == "self.styles.items()":
+        if norm(e) in ("self.styles.items()", "self.styles", "self.styles.keys()"):
             return "yes"
         if isinstance(e, ast.Call) and norm(e.func) in ("sorted", "list", "tuple", "reversed", "iter") and e.args:
             return all_items(e.args[0], depth + 1)
@@ -410,7 +420,7 @@ def r20_6(ctx):
             rs = {all_items(v, depth + 1) for v in binds206[e.id]}
             return "yes" if rs == {"yes"} else ("filtered" if "filtered" in rs else "unknown")
         return "unknown"
-    gens = [x for x in walk_local(cfgp.node) if isinstance(x, (ast.GeneratorExp, ast.ListComp)) and len(x.generators) == 1 and isinstance(x.generators[0].target, ast.Tuple) and len(x.generators[0].target.elts) == 2]
+    gens = [x for x in walk_local(cfgp.node) if isinstance(x, (ast.GeneratorExp, ast.ListComp)) and len(x.generators) == 1 and ((isinstance(x.generators[0].target, ast.Tuple) and len(x.generators[0].target.elts) == 2) or isinstance(x.generators[0].target, ast.Name))]
     loops206 = [x for x in walk_local(cfgp.node) if isinstance(x, ast.For) and isinstance(x.target, ast.Tuple) and len(x.target.elts) == 2]
     verdicts = []
     for x in gens:
